@@ -241,7 +241,11 @@ pub fn check_artifacts(sc: &E2Scenario, before: &Tree, after: &Tree, listed: &[S
     // ---- 6. every definition's generated identifier carries a segment into its header
     // schema declaration file
     let schema_out = p.gen_str("schemaOutput").map(|s| p.abs(&s));
-    if let Some(so) = &schema_out {
+    if p.introspection() {
+        // no GraphQL source exists for the schema: the map of the schema declaration file has
+        // nothing to point at (items 1-5 above still apply to it)
+        rep.probe("schema_from_introspection");
+    } else if let Some(so) = &schema_out {
         if let (Some(m), Some(gen_text)) = (maps.get(&format!("{so}.map")), str_tree(after, so)) {
             let gen_lines: Vec<&str> = gen_text.split('\n').collect();
             for t in &p.schema.types {
